@@ -250,7 +250,7 @@ def run(ck: Check):
     obligations, discharged, axioms = standard_proof_step(ck, extra_targets=["Model/DictCodecCorr.vo"])
     import c03b
     c03b.IMPORTS_SAVED = c03b.IMPORTS
-    n_models = ck.n(150, 2500)
+    n_models = ck.n(110, 2500)
     per_model = ck.n(3, 5)
     wit = witness_models()
     models = []
